@@ -5,6 +5,8 @@ package storeprops
 import (
 	"bytes"
 	"fmt"
+	"os"
+	"path/filepath"
 	"sort"
 	"testing"
 
@@ -26,6 +28,9 @@ type c10Case struct {
 	Content c18StoreCase `json:"content"` // keys/values (valid UTF-8 keys: they go through the operation log) and delete prefixes
 	Snaps   []c10Snap    `json:"snaps"`
 	Below   []uint64     `json:"below"`
+	// Legacy: number of files of the old naming scheme (<end>-<start>.<trace id>.partial) lying in the directory;
+	// the listing skips them (and cleans up to 100 of them per call)
+	Legacy int `json:"legacy,omitempty"`
 }
 
 func genKey(t *rapid.T) string {
@@ -85,6 +90,12 @@ func genC10(t *rapid.T) c10Case {
 		}
 		used[key] = true
 		c.Snaps = append(c.Snaps, s)
+	}
+	switch rapid.IntRange(0, 9).Draw(t, "legacyk") {
+	case 0, 1:
+		c.Legacy = rapid.IntRange(1, 5).Draw(t, "legacyfew")
+	case 2:
+		c.Legacy = rapid.IntRange(95, 140).Draw(t, "legacymany")
 	}
 	c.Below = []uint64{0, c.Initial, c.Initial + 1, max, max + 1}
 	for _, s := range c.Snaps {
@@ -221,6 +232,19 @@ func checkC10(c c10Case) *ev.Failure {
 		}
 		saved[key{s.Partial, s.Start, s.End}] = true
 	}
+	for i := 0; i < c.Legacy; i++ {
+		start := c.Initial + 7_000_000 + uint64(i)
+		if start+1 > 9_999_999_999 {
+			start = 9_000_000_000 + uint64(i)
+		}
+		name := fmt.Sprintf("%010d-%010d.%016x.partial", start+1, start, 0xabc000+i)
+		if err := os.WriteFile(filepath.Join(e2.dir, "hash", "states", name), []byte("legacy"), 0o644); err != nil {
+			os.MkdirAll(filepath.Join(e2.dir, "hash", "states"), 0o755)
+			if err := os.WriteFile(filepath.Join(e2.dir, "hash", "states", name), []byte("legacy"), 0o644); err != nil {
+				return ev.Failf("harness", "%v", err)
+			}
+		}
+	}
 	for _, below := range c.Below {
 		files, err := e2.cfg.ListSnapshotFiles(ctx, below)
 		if err != nil {
@@ -268,7 +292,7 @@ func classifyC10(c c10Case) (bool, []string) {
 			nf++
 		}
 	}
-	cl := []string{fmt.Sprintf("entries<=%d", bucketInt(len(c.Content.KV))), fmt.Sprintf("snapshots<=%d", bucketInt(len(c.Snaps)))}
+	cl := []string{fmt.Sprintf("entries<=%d", bucketInt(len(c.Content.KV))), fmt.Sprintf("snapshots<=%d", bucketInt(len(c.Snaps))), fmt.Sprintf("legacy-files<=%d", bucketInt(c.Legacy))}
 	return (empty && multibyte) || (np >= 1 && nf >= 1 && np+nf >= 3), cl
 }
 
